@@ -231,6 +231,7 @@ type c14Conc struct {
 	syncWins      [][2]int64
 	subRecs       [][]c14Rec
 	panics        int32
+	abort         *int32 // set by the watchdog when the run is abandoned
 
 	cache   map[string]*c14Item // (sender, epoch, nonce, variant) -> item
 	actors  []*Actor
@@ -239,6 +240,8 @@ type c14Conc struct {
 	failed  bool
 	phase   string
 	pointNo int64
+	period  state.ValidationPeriod // of the head, from the engine's private view
+	epoch   uint16
 }
 
 func (c *c14Conc) tick() int64 { return atomic.AddInt64(&c.clock, 1) }
@@ -258,8 +261,15 @@ func (c *c14Conc) item(key string, mk func() *types.Transaction) *c14Item {
 // sender a window of nonces after the committed one (some nonces in two variants), one tx of
 // the next epoch, ceremony txs while a validation period is on, and a tail of older items.
 func (c *c14Conc) refreshCorpus() {
-	w := c.w
-	st := c.p.AppState.State
+	// a private read-only view of the committed state: the harness does not touch the
+	// canonical StateDB while submitters are inside the pool
+	st, err := c.p.AppState.State.Readonly(int64(c.p.Head().Height()))
+	if err != nil {
+		panic(fmt.Sprintf("C14 harness: no read-only view at %d: %v", c.p.Head().Height(), err))
+	}
+	ns := c.p.AppState.ValidatorsCache.NetworkSize()
+	c.period = st.ValidationPeriod()
+	c.epoch = st.Epoch()
 	ep := st.Epoch()
 	cp := &c14Corpus{}
 	add := func(it *c14Item) {
@@ -284,14 +294,14 @@ func (c *c14Conc) refreshCorpus() {
 				a, n, v := a, n, v
 				add(c.item(fmt.Sprintf("%s/%d/%d/%d", a.Name, ep, n, v), func() *types.Transaction {
 					to := c.actors[(ai+1)%len(c.actors)].Addr
-					return c14Tx(w, a, types.SendTx, &to, bigN(1e12+int64(n)*1000+int64(v)), nil, n, ep, 30)
+					return c14TxAt(st, ns, a, types.SendTx, &to, bigN(1e12+int64(n)*1000+int64(v)), nil, n, ep, 30)
 				}))
 			}
 		}
 		a2 := a
 		add(c.item(fmt.Sprintf("%s/%d/next-epoch", a.Name, ep), func() *types.Transaction {
 			to := c.actors[(ai+1)%len(c.actors)].Addr
-			return c14Tx(w, a2, types.SendTx, &to, bigN(7e12), nil, 1, ep+1, 30)
+			return c14TxAt(st, ns, a2, types.SendTx, &to, bigN(7e12), nil, 1, ep+1, 30)
 		}))
 	}
 	if st.ValidationPeriod() != state.NonePeriod {
@@ -305,7 +315,7 @@ func (c *c14Conc) refreshCorpus() {
 				a, t := a, t
 				n := base + 1 + uint32(ti)%3
 				add(c.item(fmt.Sprintf("%s/%d/%d/cer%d", a.Name, ep, n, t), func() *types.Transaction {
-					return c14CeremonyTx(w, c.r, a, t, n, ep)
+					return c14CeremonyTxAt(st, ns, c.r, a, t, n, ep)
 				}))
 			}
 		}
@@ -348,7 +358,7 @@ func (c *c14Conc) submitter(id int, wg *sync.WaitGroup) {
 		}
 	}()
 	role := id % 4 // 0 gossip, 1 rpc, 2 internal+rpc, 3 reader+gossip
-	for atomic.LoadInt32(&c.stop) == 0 {
+	for atomic.LoadInt32(&c.stop) == 0 && atomic.LoadInt32(c.abort) == 0 {
 		cp := c.corpus.Load().(*c14Corpus)
 		it := cp.items[r.Intn(len(cp.items))]
 		var sel int
@@ -365,6 +375,9 @@ func (c *c14Conc) submitter(id int, wg *sync.WaitGroup) {
 		switch sel {
 		case 0: // gossip: async queue (1..3 txs)
 			n := r.Range(1, 3)
+			if c.async.VerifQueueLen() > 1500 {
+				n = 0 // the worker is far behind: do not pile up more
+			}
 			for k := 0; k < n; k++ {
 				it := cp.items[r.Intn(len(cp.items))]
 				tx := c.decode(it, r)
@@ -438,8 +451,11 @@ func (c *c14Conc) submitter(id int, wg *sync.WaitGroup) {
 		}
 		atomic.AddInt64(&c.subOps, 1)
 		atomic.AddInt64(c.progress, 1)
-		if r.Intn(8) == 0 {
+		switch r.Intn(8) {
+		case 0:
 			runtime.Gosched()
+		case 1, 2:
+			time.Sleep(30 * time.Microsecond) // keeps the volume per block moderate
 		}
 	}
 }
@@ -458,7 +474,7 @@ func c14Verdict(err error) string {
 
 func (c *c14Conc) waitSubmitters(n int64) {
 	target := atomic.LoadInt64(&c.subOps) + n
-	for atomic.LoadInt64(&c.subOps) < target && atomic.LoadInt32(&c.panics) == 0 {
+	for atomic.LoadInt64(&c.subOps) < target && atomic.LoadInt32(&c.panics) == 0 && atomic.LoadInt32(c.abort) == 0 {
 		time.Sleep(200 * time.Microsecond)
 	}
 }
@@ -521,16 +537,15 @@ func (c *c14Conc) oneBlock() bool {
 	c.blocks++
 	c.rep.Count("conc_blocks", 1)
 	c.rep.Count("conc_txs_in_blocks", len(b.Body.Transactions))
-	c.rep.Count(fmt.Sprintf("conc_blocks_in_period_%d", c.p.AppState.State.ValidationPeriod()), 1)
 	atomic.AddInt64(c.progress, 1)
 	c.refreshCorpus()
+	c.rep.Count(fmt.Sprintf("conc_blocks_in_period_%d", c.period), 1)
 	return true
 }
 
 func (c *c14Conc) engine(nBlocks int) {
-	st := func() *state.StateDB { return c.p.AppState.State }
-	epoch0 := st().Epoch()
-	for i := 0; i < nBlocks && !c.failed && atomic.LoadInt32(&c.panics) == 0; i++ {
+	epoch0 := c.epoch
+	for i := 0; i < nBlocks && !c.failed && atomic.LoadInt32(&c.panics) == 0 && atomic.LoadInt32(c.abort) == 0; i++ {
 		c.phase = fmt.Sprintf("block %d", i)
 		c.waitSubmitters(int64(c.r.Range(30, 90)))
 		c.checkOffer("before proposing")
@@ -557,29 +572,67 @@ func (c *c14Conc) engine(nBlocks int) {
 			break
 		}
 	}
-	if st().Epoch() != epoch0 {
+	if c.epoch != epoch0 {
 		c.rep.Count("conc_epoch_changes", 1)
 	}
+}
+
+// c14ChainCollector is handed to Chain.AddBlock (Replica.Stats): callbacks the chain makes
+// while it validates / applies a block precede the pool's ResetTo of that block in the same
+// goroutine, so each of them is a tighter lower bound for the moment of the removals.
+type c14ChainCollector struct {
+	collector.StatsCollector
+	mark func()
+}
+
+func (k *c14ChainCollector) EnableCollecting() { k.mark(); k.StatsCollector.EnableCollecting() }
+func (k *c14ChainCollector) AddMintedCoins(amount *big.Int) {
+	k.mark()
+	k.StatsCollector.AddMintedCoins(amount)
+}
+func (k *c14ChainCollector) AddProposerReward(balanceDest, stakeDest common.Address, balance, stake *big.Int, stakeWeight *big.Float) {
+	k.mark()
+	k.StatsCollector.AddProposerReward(balanceDest, stakeDest, balance, stake, stakeWeight)
 }
 
 func (c *c14Conc) onRemove(tx *types.Transaction) {
 	// runs synchronously inside ResetTo, i.e. in the engine goroutine, under the pool mutex.
 	// The deletion itself happened between the start of the engine's operation and now.
-	c.engineRecs = append(c.engineRecs, c14Rec{hash: tx.Hash(), kind: c14Rm, out: "", call: atomic.LoadInt64(&c.engineOpStart), ret: c.tick(), client: c.nSub, path: "RemoveMemPoolTx"})
+	t := c.tick()
+	c.engineRecs = append(c.engineRecs, c14Rec{hash: tx.Hash(), kind: c14Rm, out: "", call: atomic.LoadInt64(&c.engineOpStart), ret: t, client: c.nSub, path: "RemoveMemPoolTx"})
+	// removals of one ResetTo are sequential: the next one happens after this callback
+	atomic.StoreInt64(&c.engineOpStart, t)
 }
 
-// drain waits until the gossip queue's worker can no longer change the pool: 1001 copies of a
-// tx that every pool rejects (negative amount) are queued behind whatever is still waiting;
+// drain waits until the gossip queue's worker can no longer change the pool. First the queue
+// must be empty (every real tx taken by the worker; its last batch may still be in
+// progress). Then 1001 copies of a tx that every pool rejects (negative amount) are queued:
 // batches hold at most 1000 txs and are processed one after the other, so once the queue is
-// empty the batch with the last real tx has been completed.
+// empty again a batch AFTER the one that followed the last real batch was taken, i.e. the
+// last real batch has been completed.
 func (c *c14Conc) drain() {
-	dummy := SignedTx(c.actors[0], types.SendTx, &c.actors[1].Addr, big.NewInt(-1), Dna(1), nil, 1, c.p.AppState.State.Epoch(), nil)
+	waitEmpty := func() {
+		last := -1
+		for {
+			n := c.async.VerifQueueLen()
+			if n == 0 {
+				return
+			}
+			if n != last {
+				last = n
+				atomic.AddInt64(c.progress, 1) // the worker is alive
+			}
+			time.Sleep(time.Millisecond)
+		}
+	}
+	waitEmpty()
+	dummy := SignedTx(c.actors[0], types.SendTx, &c.actors[1].Addr, big.NewInt(-1), Dna(1), nil, 1, c.epoch, nil)
 	for k := 0; k < 1001; k++ {
-		c.async.AddExternalTxs(validation.InboundTx, dummy)
+		if err := c.async.AddExternalTxs(validation.InboundTx, dummy); err != nil {
+			panic("C14 harness: the gossip queue refused a drain marker: " + err.Error())
+		}
 	}
-	for c.async.VerifQueueLen() > 0 {
-		time.Sleep(time.Millisecond)
-	}
+	waitEmpty()
 }
 
 func (c *c14Conc) quiescentChecks() {
@@ -732,40 +785,31 @@ func (c *c14Conc) checkHistories(tEnd int64, seen map[string]bool) {
 		}
 		// the check proper: the history is cut at its quiescent points (no operation open);
 		// every segment is checked from the set of states the previous one can end in
-		st := uint8(1)
-		for _, seg := range c14Segments(per[h]) {
-			left := time.Until(deadline)
-			if left <= 0 {
-				c.rep.Inconcl("concurrent run %d: porcupine check ran out of its 60 s budget", c.run)
-				return
+		segs := c14Segments(per[h])
+		c.rep.Count("conc_segments_checked", len(segs))
+		bad, st, res := c14CheckHash(segs, false, deadline)
+		if res == porcupine.Unknown {
+			c.rep.Inconcl("concurrent run %d: porcupine ran out of its 60 s budget (history of %d operations)", c.run, len(per[h]))
+			if os.Getenv("VERIF_C14_DUMP") != "" {
+				fmt.Printf("C14 TIMEOUT run %d hash %x:\n%s\n", c.run, h[:6], strings.Join(c14HistoryText(per[h]), "\n"))
 			}
-			finals, res := c14CheckSegment(seg, st, left, false)
-			c.rep.Count("conc_segments_checked", 1)
-			if res == porcupine.Unknown {
-				c.rep.Inconcl("concurrent run %d: porcupine timed out on a segment of %d operations", c.run, len(seg))
-				if os.Getenv("VERIF_C14_DUMP") != "" {
-					fmt.Printf("C14 TIMEOUT SEGMENT run %d hash %x init %d:\n%s\n", c.run, h[:6], st, strings.Join(c14HistoryText(seg), "\n"))
+			return
+		}
+		if bad >= 0 {
+			// classify: is "a tx that is present was accepted once more" the only thing the
+			// model cannot explain? (the whole history is re-checked with that tolerated:
+			// an early removal interval can mask the second accept in the strict pass)
+			class, what := "double-accept", "the same tx was accepted (nil error) by two overlapping adds although no removal separates them; with that tolerated every other verdict and lookup is consistent"
+			bad2, st2, res2 := c14CheckHash(segs, true, time.Now().Add(30*time.Second))
+			if res2 == porcupine.Unknown || bad2 >= 0 {
+				class, what = "other", "no order of the operations that is compatible with real time explains the returned verdicts and lookups (a second accept of a present tx tolerated)"
+				if bad2 >= 0 {
+					bad, st = bad2, st2
 				}
-				return
 			}
-			if finals == 0 {
-				// classify: is "a tx that is present was accepted once more" the only thing
-				// the model cannot explain? Then go on with that tolerated, so that a second,
-				// different anomaly of the same hash is still seen.
-				relaxed, r2 := c14CheckSegment(seg, st, 20*time.Second, true)
-				class, what := "other", "no order of the operations that is compatible with real time explains the returned verdicts and lookups"
-				if r2 != porcupine.Unknown && relaxed != 0 {
-					class, what = "double-accept", "the same tx was accepted (nil error) by two overlapping adds although no removal separates them; every other verdict and lookup is consistent with that"
-				}
-				c.rep.Violation("linearizability:"+class, fmt.Sprintf("concurrent run %d (seed %d): the history of tx %x is not linearizable w.r.t. {absent,present}: %s", c.run, c.seed, h[:6], what),
-					map[string]interface{}{"run": c.run, "seed": c.seed, "offending_segment": c14HistoryText(seg), "possible_states_before_segment(1=absent,2=present,4=background adds)": st,
-						"history_recorded": c14HistoryText(orig[h]), "sync_windows": c.syncWins})
-				if class == "other" {
-					break
-				}
-				finals = relaxed
-			}
-			st = finals
+			c.rep.Violation("linearizability:"+class, fmt.Sprintf("concurrent run %d (seed %d): the history of tx %x is not linearizable w.r.t. {absent,present}: %s", c.run, c.seed, h[:6], what),
+				map[string]interface{}{"run": c.run, "seed": c.seed, "offending_segment": c14HistoryText(segs[bad]), "possible_states_before_segment(1=absent,2=present,4=background adds)": st,
+					"history_recorded": c14HistoryText(orig[h]), "sync_windows": c.syncWins})
 		}
 		c.rep.Count("conc_histories_checked", 1)
 	}
@@ -792,6 +836,27 @@ func c14Segments(recs []c14Rec) [][]c14Rec {
 		out = append(out, cur)
 	}
 	return out
+}
+
+// c14CheckHash checks the segments of one hash in order; returns the index of the first
+// segment that cannot be linearized (-1: none) and the state set it was entered with.
+func c14CheckHash(segs [][]c14Rec, tolerateDoubleAccept bool, deadline time.Time) (int, uint8, porcupine.CheckResult) {
+	st := uint8(1)
+	for i, seg := range segs {
+		left := time.Until(deadline)
+		if left <= 0 {
+			return -1, st, porcupine.Unknown
+		}
+		finals, res := c14CheckSegment(seg, st, left, tolerateDoubleAccept)
+		if res == porcupine.Unknown {
+			return -1, st, porcupine.Unknown
+		}
+		if finals == 0 {
+			return i, st, porcupine.Illegal
+		}
+		st = finals
+	}
+	return -1, st, porcupine.Ok
 }
 
 // c14CheckSegment returns the set of states (model encoding) a segment can end in when it
@@ -827,7 +892,7 @@ func c14CheckSegment(seg []c14Rec, init uint8, timeout time.Duration, tolerateDo
 	return finals | flag, porcupine.Ok
 }
 
-func c14ConcRun(rep *verifutil.Report, run int, progress *int64, seen map[string]bool) {
+func c14ConcRun(rep *verifutil.Report, run int, progress *int64, seen map[string]bool, abort *int32) {
 	seed := scenSeed(run)*37 + 1400
 	r := verifutil.NewRng(seed, 1414)
 	mp := &config.Mempool{
@@ -846,9 +911,10 @@ func c14ConcRun(rep *verifutil.Report, run int, progress *int64, seen map[string
 		rep.Inconcl("C14 concurrent run %d: harness set-up failed: %v", run, err)
 		return
 	}
-	c := &c14Conc{rep: rep, run: run, seed: seed, w: w, p: w.Replicas[0], r: r, mp: mp, progress: progress, cache: map[string]*c14Item{}}
+	c := &c14Conc{rep: rep, run: run, seed: seed, w: w, p: w.Replicas[0], r: r, mp: mp, progress: progress, cache: map[string]*c14Item{}, abort: abort}
 	c.pool = c.p.TxPool
 	c.pool.VerifSetStatsCollector(&c14Collector{StatsCollector: collector.NewStatsCollector(), onRemove: c.onRemove})
+	c.p.Stats = &c14ChainCollector{StatsCollector: c.p.Stats, mark: func() { atomic.StoreInt64(&c.engineOpStart, c.tick()) }}
 	c.async = mempool.NewAsyncTxPool(c.pool)
 	c.actors = append([]*Actor{}, w.Accounts[:3]...)
 	c.actors = append(c.actors, w.God) // the pool's own address
@@ -878,6 +944,9 @@ func c14ConcRun(rep *verifutil.Report, run int, progress *int64, seen map[string
 	atomic.StoreInt32(&c.stop, 1)
 	c.phase = "stopping submitters"
 	wg.Wait()
+	if atomic.LoadInt32(c.abort) != 0 {
+		return
+	}
 	if engPanic != nil {
 		rep.Violation("panic:"+verifutil.TopRepoFrame(engStack), fmt.Sprintf("concurrent run %d: engine goroutine panicked in %s: %v", run, c.phase, engPanic), map[string]interface{}{"stack": verifutil.Trunc(engStack, 4000)})
 		return
@@ -913,7 +982,8 @@ func TestVerifC14Conc(t *testing.T) {
 		run := i
 		rep.Progress("C14conc run %d", run)
 		var progress int64
-		ok, dump, pnc, stack := c14Watch(&progress, c14Stall(), func() { c14ConcRun(rep, run, &progress, seen) })
+		var abort int32
+		ok, dump, pnc, stack := c14Watch(&progress, c14Stall(), func() { c14ConcRun(rep, run, &progress, seen, &abort) })
 		if pnc != nil {
 			rep.Violation("panic:"+verifutil.TopRepoFrame(stack), fmt.Sprintf("concurrent run %d: panic %v", run, pnc), map[string]interface{}{"stack": verifutil.Trunc(stack, 4000)})
 			continue
@@ -923,8 +993,13 @@ func TestVerifC14Conc(t *testing.T) {
 		}
 		at := atomic.LoadInt64(&progress)
 		fmt.Printf("C14: concurrent run %d stalled (progress counter %d); goroutines:\n%s\n", run, at, dump)
+		// goroutines of the abandoned run that are not blocked wind down before the retry
+		atomic.StoreInt32(&abort, 1)
+		time.Sleep(3 * time.Second)
 		var progress2 int64
-		ok2, dump2, _, _ := c14Watch(&progress2, c14Stall(), func() { c14ConcRun(rep, run, &progress2, map[string]bool{}) })
+		var abort2 int32
+		ok2, dump2, _, _ := c14Watch(&progress2, c14Stall(), func() { c14ConcRun(rep, run, &progress2, map[string]bool{}, &abort2) })
+		atomic.StoreInt32(&abort2, 1)
 		if !ok2 {
 			rep.Violation("deadlock", fmt.Sprintf("concurrent run %d: no submitter operation and no block completed for %v (progress counter %d), and again (counter %d) when the run was repeated", run, c14Stall(), at, atomic.LoadInt64(&progress2)),
 				map[string]interface{}{"run": run, "mempool_goroutines_first": c14MempoolFrames(dump), "mempool_goroutines_retry": c14MempoolFrames(dump2)})
